@@ -58,15 +58,58 @@ func hoisted(c Cmd) bool {
 	return c.kind == 'd' && (strings.HasPrefix(c.text, "(declare-") || strings.HasPrefix(c.text, "(define-"))
 }
 
-func (s *Sess) scriptPrefix(upto int) string {
+// blockReachMap: for every block, the set of blocks from which it can be reached (its ancestors in
+// the CFG, back edges included), plus itself.
+var ancMu sync.Mutex
+
+func (s *Sess) ancestors(blk int) map[int]bool {
+	ancMu.Lock()
+	defer ancMu.Unlock()
+	if s.reachTo == nil {
+		s.reachTo = map[int]map[int]bool{}
+	}
+	if m, ok := s.reachTo[blk]; ok {
+		return m
+	}
+	m := map[int]bool{blk: true}
+	if blk >= 0 && blk < len(s.fn.Blocks) && s.inlineFnOK() {
+		stack := []*ssa.BasicBlock{s.fn.Blocks[blk]}
+		for len(stack) > 0 {
+			b := stack[len(stack)-1]
+			stack = stack[:len(stack)-1]
+			for _, p := range b.Preds {
+				if !m[p.Index] {
+					m[p.Index] = true
+					stack = append(stack, p)
+				}
+			}
+		}
+	}
+	s.reachTo[blk] = m
+	return m
+}
+
+func (s *Sess) inlineFnOK() bool { return true }
+
+// scriptPrefix is everything that precedes command `upto`. When forBlk >= 0 the prefix is sliced
+// to the commands generated in blocks that can reach forBlk: code on other branches can neither
+// execute before the obligation nor constrain it (dropping assumptions only weakens the query).
+func (s *Sess) scriptPrefix(upto int, forBlk int) string {
 	var sb strings.Builder
 	if s.absStr {
 		sb.WriteString(";abs\n")
 	}
 	sb.WriteString(s.header())
+	var anc map[int]bool
+	if forBlk >= 0 && !s.noSlice {
+		anc = s.ancestors(forBlk)
+	}
 	for i := 0; i < upto && i < len(s.cmds); i++ {
 		c := s.cmds[i]
 		if hoisted(c) {
+			continue
+		}
+		if anc != nil && c.blk >= 0 && !anc[c.blk] {
 			continue
 		}
 		switch c.kind {
@@ -110,7 +153,14 @@ func (s *Sess) incrementalScript(timeoutMs int) string {
 	return sb.String()
 }
 
+var solverSem = make(chan struct{}, 14)
+
 func runSolver(ctx context.Context, solver string, script string, timeoutS int) (string, string, float64) {
+	solverSem <- struct{}{}
+	defer func() { <-solverSem }()
+	if ctx.Err() != nil {
+		return "", "", 0
+	}
 	t0 := time.Now()
 	script = selectVariant(script, solver != "cvc5")
 	if strings.HasPrefix(script, ";abs\n") {
@@ -144,6 +194,26 @@ func firstLine(s string) string {
 // solveSession discharges all obligations of a session.
 func solveSession(s *Sess, cfg SolverCfg) {
 	if len(s.obs) == 0 {
+		return
+	}
+	// big functions: the whole-function incremental script is too large to be useful; go straight
+	// to one sliced query per obligation
+	if len(s.fn.Blocks) > 150 || len(s.cmds) > 8000 {
+		var wg sync.WaitGroup
+		for _, ob := range s.obs {
+			ob.Status = "unknown"
+			if ob.MustFail {
+				ob.Status = "unsat"
+				ob.Solver = "(cover skipped: function too large for a whole-function query)"
+				continue
+			}
+			wg.Add(1)
+			go func(ob *Obligation) {
+				defer wg.Done()
+				raceObligation(s, ob, cfg)
+			}(ob)
+		}
+		wg.Wait()
 		return
 	}
 	// phase 1: one incremental run over the whole function on z3-new and on cvc5, in parallel
@@ -230,7 +300,7 @@ func solveSession(s *Sess, cfg SolverCfg) {
 }
 
 func raceObligation(s *Sess, ob *Obligation, cfg SolverCfg) {
-	prefix := s.scriptPrefix(ob.cmdIdx)
+	prefix := s.scriptPrefix(ob.cmdIdx, ob.blk)
 	query := prefix + fmt.Sprintf("(assert (not %s))\n(check-sat)\n", ob.Formula)
 	type res struct {
 		solver, status, model string
@@ -304,6 +374,9 @@ func raceObligation(s *Sess, ob *Obligation, cfg SolverCfg) {
 	if cfg.OutDir != "" && ob.Status != "unsat" {
 		os.MkdirAll(cfg.OutDir, 0o755)
 		fn := filepath.Join(cfg.OutDir, sanitizeFile(ob.Name)+".smt2")
+		if ob.Kind == "post" {
+			fn = filepath.Join(cfg.OutDir, fmt.Sprintf("%s-b%d.smt2", sanitizeFile(ob.Name), ob.blk))
+		}
 		os.WriteFile(fn, []byte(query+"(get-model)\n"), 0o644)
 	}
 }
